@@ -243,3 +243,63 @@ def run_C20(res, tier, seed, t_end):
         if watchers != 0:
             res.findings.append(finding('C20', 'closed_socket_forgotten', 'mode %s closed by %s: %d watcher(s) left' % (mode, how, watchers)))
             return
+
+
+def run_C20_asyncio(res, tier, seed, t_end):
+    """asyncio clients: a closed connection is forgotten at once (not only after GC), also when it was parked in a blocking pop"""
+    real_time()
+
+    async def scenario(mode):
+        srv = fakeredis.FakeServer()
+        a = far.FakeRedis(server=srv)
+        b = far.FakeRedis(server=srv)
+        if mode in ('subscribed', 'psubscribed'):
+            ps = a.pubsub()
+            await (ps.subscribe('ch') if mode == 'subscribed' else ps.psubscribe('c*'))
+            await ps.get_message(timeout=0.1)
+            n0 = await b.publish('ch', 'x')
+            await ps.close()
+            await a.close()
+            await a.connection_pool.disconnect()
+            n1 = await b.publish('ch', 'x')
+            left = sum(len(list(ws)) for ws in list(srv.subscribers.values()) + list(srv.psubscribers.values()))
+            return None if (n0 == 1 and n1 == 0 and left == 0) else 'asyncio %s client closed: PUBLISH counted %d before, %d after close, %d sockets still registered' % (mode, n0, n1, left)
+        if mode == 'parked':
+            t = asyncio.ensure_future(a.blpop('q', 0))
+            await asyncio.sleep(0.02)
+            t.cancel()
+            try:
+                await t
+            except asyncio.CancelledError:
+                pass
+            await a.close()
+            await a.connection_pool.disconnect()
+            await b.rpush('q', 'elem')
+            await asyncio.sleep(0.02)
+            got = await b.lrange('q', 0, -1)
+            return None if got == [b'elem'] else 'element pushed after the parked asyncio client was closed is gone: %r' % (got,)
+        if mode == 'watching':
+            async with a.pipeline() as p:
+                await p.watch('k')
+            await a.close()
+            await a.connection_pool.disconnect()
+            await b.set('k', '1')
+            w = sum(len(list(ws)) for db in srv.dbs.values() for ws in db._watches.values())
+            return None if w == 0 else '%d watcher(s) left after the asyncio client was closed' % w
+    errors = []
+
+    def handler(loop, ctx):
+        errors.append(repr(ctx.get('exception') or ctx.get('message')))
+    for rnd in range(2 if tier == 'quick' else 20):
+        for mode in ('subscribed', 'psubscribed', 'parked', 'watching'):
+            loop = asyncio.new_event_loop()
+            loop.set_exception_handler(handler)
+            try:
+                msg = loop.run_until_complete(scenario(mode))
+            finally:
+                loop.close()
+            res.evaluations += 1
+            res.cells.add(('aio-forget', mode))
+            if msg or errors:
+                res.findings.append(finding('C20', 'closed_socket_forgotten(asyncio)', msg or ('task exception: %s' % errors[:2])))
+                return
